@@ -20,10 +20,11 @@
 (*   spec outcome "wrong": a result different from the reference, all      *)
 (*        stale reads / cache re-uses explained by deviations -> kf        *)
 (*   spec outcome "ok" and the result is not correct -> fail               *)
-(* mode "concrete" (fall-back after model drift) ignores the abstract      *)
-(* state: an exception is kf iff it is listed for (class, m) at all, a     *)
-(* different result is kf iff the class has a listed wrong-result          *)
-(* deviation.                                                              *)
+(* mode "concrete" (fall-back after model drift: exhaustive call sequences *)
+(* of length <= 3): the correct result is ok whatever the specification    *)
+(* predicted; an exception is kf iff it is listed for (class, m) in any    *)
+(* state; a different result is kf only if the specification predicts      *)
+(* "wrong" there and deviations explain it - any other inequality fails.   *)
 (* drift: rbw \subseteq MayRead(m) and writes \subseteq MayWrite(m) must   *)
 (* hold, otherwise the path gets the overall verdict "drift".              *)
 (***************************************************************************)
@@ -66,7 +67,6 @@ Good(s, prev) == s.out = "ok" /\ SameRef(s) /\ SamePrev(s, prev) /\ s.argsSame
 
 ClassFailDevs(k, s) == {f.dev : f \in {g \in FailTable : g.dev \in Deviations /\ g.cls = Class(k) /\ g.m \in {s.m, "*"}
                                                        /\ g.et = s.etype /\ g.em = s.emsg}}
-ClassWrongDevs(k) == {w.dev : w \in {x \in WrongTable : x.dev \in Deviations /\ x.cls = Class(k)}}
 
 (* judgement of step s of the current event; o = outcome of Lifecycle!Call on the abstract state *)
 Judge(k, mode, s, prev, o) ==
@@ -80,9 +80,9 @@ Judge(k, mode, s, prev, o) ==
        THEN IF s.out = "exc"
             THEN IF ClassFailDevs(k, s) # {} THEN mk("kf", ClassFailDevs(k, s), "listed failure")
                  ELSE mk("fail", {}, "unlisted failure")
-            ELSE IF s.out = "ok" /\ ~SameRef(s) /\ ClassWrongDevs(k) # {}
-                 THEN mk("kf", ClassWrongDevs(k), "result differs from the fresh object")
-                 ELSE mk("fail", {}, "result differs")
+            ELSE IF s.out = "ok" /\ ~SameRef(s) /\ o.out = "wrong" /\ Explains(k, s.m, o, Deviations) # {}
+                 THEN mk("kf", Explains(k, s.m, o, Deviations), "result differs from the fresh object (predicted)")
+                 ELSE mk("fail", {}, "result differs from fresh object or repetition")
        ELSE CASE o.out = "ok" -> mk("fail", {}, IF s.out = "exc" THEN "unexpected failure"
                                                 ELSE "result differs from fresh object or repetition")
               [] o.out = "fails" ->
